@@ -21,6 +21,21 @@ CHECKS = {
  "C12": dict(level=MC, design="2/C12", technique="symbolic execution of the real Phantom metaclass/predicates on proxy values against a pinned range table (z3 QF_BV; Int/Real standard model for the float-based predicates and writers)",
    text="isinstance(v, T), T(v) and T.parse(v) of the real Phantom types run on a solver variable v (integers over [-2^100, 2^100], every 64-bit float pattern, every microsecond duration, every microsecond instant with a symbolic fixed offset); membership is compared with a range table pinned in /verif, the nesting chains are implications between the symbolic membership terms, and member => writer accepts and reads back.",
    note="tzinfo restricted to fixed offsets; non-matching Python types are finite concrete cases. Trusted: datetime/struct models (validated differentially), IEEE standard model for dt.timestamp() and total_seconds(), z3."),
+ "C03": dict(level=MC, design="2/C03", technique="symbolic execution of the real entity_reader on wire-first encodings produced by the independent reference encoder (symbolic wire values, forced/explicit-default tagged fields, unknown tags with symbolic number and size); z3 QF_BV",
+   text="For every explored (class, shape) the reference encoder emits a conforming encoding over symbolic wire values together with the value it must decode to; the real reader runs on it and the solver shows on every path: no exception, decoded value equals the wire values (absent tagged fields = defaults), exact consumption. Unknown tagged fields have a symbolic tag number (all numbers not declared by the class) and a symbolic size.",
+   note="Bounds as C01 plus: <= 2 unknown tags per tagged section, sizes < 2^21, time-typed fields at wire representatives (whole domain decided in C05/C11). Known finding: int64 ms values beyond Python's datetime/timedelta range. Trusted: reference encoder, boundary models, hash-hint rule for dict lookups (A2), z3."),
+ "C05": dict(level=MC, design="2/C05", technique="symbolic execution of real reader then real writer on canonical reference encodings (bytes in == bytes out decided by z3); full-wire-domain primitive lemmas in Int/Real standard-model arithmetic",
+   text="(a) entity level: canonical encodings from the reference encoder over symbolic wire values are decoded by the real reader and re-encoded by the real writer; the solver shows byte-for-byte equality and decode/encode idempotence on every path where the reader accepts the input. (b) primitive level over the full wire domain (all 2^32 / 2^64 millisecond values, all 16-byte UUID patterns, all 64-bit float patterns, all int16 error codes).",
+   note="Inputs the reader refuses with a documented error are outside 'accepted input' (the refusal set itself is a clause in the primitive lemmas). Float time conversions: IEEE standard model (A5). Trusted: reference encoder, boundary models, z3."),
+ "C07": dict(level=MC, design="2/C07", technique="symbolic execution of real writers/readers on one write-only sink and one read-only source with call-protocol monitors; two sink kinds compared symbolically; concrete replay into real BytesIO / asyncio.StreamWriter / socketpair file objects",
+   text="A stream lead ++ m x (header, payload) ++ trail with all scalars symbolic is written through a sink exposing only write() and read back through a source exposing only read(); any other attribute access fails the check; decoded messages equal the originals and exactly the trailing bytes remain; the byte sequence is identical for write() returning a count or None. One model per class and shape is replayed through real stream objects.",
+   note="m <= 2 (thorough 3) messages; real OS stream kinds only at the replayed points. Trusted: Sink/Src models, z3."),
+ "C10": dict(level=MC, design="2/C10", technique="symbolic execution of the real entity_reader on N fully symbolic bytes and on valid encodings with one symbolically placed and valued corrupted byte; outcome classes decided per path",
+   text="Every feasible path of the real reader over an arbitrary N-byte buffer (and over a one-byte-corrupted valid encoding) ends in an entity that the real writer re-encodes, or in SerialError/ValueError/OverflowError; any other exception is a counterexample. Arrays longer than the input are cut by the progress clause (array item classes never decode from zero bytes).",
+   note="N = 5 quick / 7 thorough; one corrupted byte; dict lookups via the hash-hint rule (A2); time arithmetic at entity level under the exact-rational abstraction (A5q). Path caps per class are listed in the evidence, not counted as pass."),
+ "C19": dict(level=MC, design="2/C19", technique="symbolic two-call histories on the real cached reader/writer closures with symbolic fault index and structural frame snapshots at every stream call",
+   text="Inductive step from an arbitrary history: call 1 (symbolic instance; successful, OSError at the k-th write/read with k symbolic, or truncated source) then call 2 with an independent symbolic instance must yield the reference bytes and decode back exactly, and a structural snapshot of everything reachable from the cached closures and kio.serial module globals must be unchanged at every stream call and after each call. Construction determinism and non-interference of other classes are finite checks.",
+   note="Thread schedules are NOT explored: claimed by reduction only (no shared state is written, construction is deterministic, functools.cache trusted). Bounds: one prior call (inductive), shapes to the recorded depth."),
 }
 
 def cmd(i, tier):
